@@ -154,8 +154,9 @@ class FindIndices(Case):
         j, k = ints('j k')
         return [('length', ln(res) == upto),
                 ('indices', FA([j], z3.Implies(z3.And(j >= 0, j < upto), z3.And(
-                    at(res, j) >= 0, at(res, j) < ln(cols), at(cols, at(res, j)) == at(outs, j))),
-                    [at(res, j)])),
+                    at(res, j) >= 0, at(res, j) < ln(cols), at(cols, at(res, j)) == at(outs, j),
+                    at(res, j) == L_index(LV, cols.t, at(outs, j)))),
+                    [at(res, j), at(outs, j)])),
                 ('first', FA([j, k], z3.Implies(z3.And(j >= 0, j < upto, k >= 0, k < at(res, j)),
                                                 at(cols, k) != at(outs, j)),
                              [z3.MultiPattern(at(res, j), at(cols, k))]))]
